@@ -475,7 +475,7 @@ fn real_main() {
             t
         } else if exhaustive {
             break;
-        } else if idx < n && !(max_secs > 0 && t_start.elapsed().as_secs() >= max_secs) {
+        } else if idx < n && !(max_secs > 0 && idx * 2 >= n && t_start.elapsed().as_secs() >= max_secs) {
             idx += 1;
             let c = if extra::is_extra(&campaign) { extra::gen_case(&campaign, &mut rng) } else { campaigns::gen_case(&campaign, &mut rng) };
             (c, false)
